@@ -402,6 +402,12 @@ LDecor(x) == {<<"label", x, "L", FALSE>>, <<"label", x, "L", TRUE>>, <<"maperr",
 LblTemplates ==
   UNION {{<<"then", d, fo>> : d \in LDecor(x), fo \in {J("c"), J("b"), <<"then", J("b"), J("c")>>}} : x \in LInner}
   \cup UNION {{<<"or", <<"then", J("a"), <<"then", J("b"), J("c")>>>>, <<"then", d, J("c")>>>> : d \in LDecor(x)} : x \in LInner}
+  \* a decorated parser that FAILS while an error lies pending further ahead (left by an earlier alternative, or by an
+  \* optional tail that was given back): the decoration applies to its own failure only, the pending error stays as it is
+  \cup UNION {UNION {{<<"or", <<"then", J("a"), <<"then", J("b"), J("c")>>>>, d>>,
+                      <<"or", <<"then", J("a"), J("b")>>, <<"then", d, J("a")>>>>,
+                      <<"then", J("a"), <<"then", <<"ornot", <<"then", J("b"), J("c")>>>>, d>>>>} : d \in LDecor(x)} :
+               x \in {J("c"), JJ("c", "a"), <<"then", J("c"), J("b")>>}}
 (* C19: fixed-size collection that fails part-way: arrays of three, nested arrays, inside repetition and recovery *)
 DLeaves == {<<"map", <<"any">>, "f">>, <<"to", J("b"), "k">>, J("a"), <<"map", J("a"), "f">>}
 DArr3 == {<<"grouparr", <<x, y, z>>>> : x \in DLeaves, y \in DLeaves, z \in DLeaves}
